@@ -3,9 +3,10 @@ def all_checks():
     from verifkit.checks import engine_checks
     from verifkit.checks import policy_checks
     from verifkit.checks import reuse_check
+    from verifkit.checks import static_checks
 
     checks = {}
-    for mod in (engine_checks, concurrency_checks, reuse_check, policy_checks):
+    for mod in (engine_checks, concurrency_checks, reuse_check, policy_checks, static_checks):
         for c in mod.CHECKS:
             checks[c.id] = c
     return checks
